@@ -34,7 +34,8 @@ from . import common as C
 
 IMPORTS = "From LQ Require Import Kernels.Translate Kernels.ExtractI18n."
 NEEDED = ["theories/Base/Str.v", "theories/Kernels/Translate.v", "theories/Kernels/ExtractI18n.v",
-          "theories/Proofs/Translate_proofs.v", "theories/Proofs/ExtractI18n_proofs.v"]
+          "theories/Proofs/Translate_proofs.v", "theories/Proofs/ExtractI18n_proofs.v",
+          "theories/Proofs/ExtractI18n_cross.v", "theories/Kernels/LexUni.v"]
 
 FAMILIES = ("gettext", "ngettext", "pgettext", "npgettext")
 TFILTERS = {"t": "FT", "gettext": "FGettext", "ngettext": "FNgettext",
@@ -105,6 +106,7 @@ class Printer:
         self.await_next: list[dict] = []      # blocks whose token is the next token emitted
         self.strings: set[str] = set()        # every string literal (for the int() table)
         self.lit_filter_sites: dict[tuple[int, str], bool] = {}   # (expr pos, msgid) -> literal
+        self.nonlit_filter_sites: dict[tuple[int, str], bool] = {}  # literal operand, other operands not literal
         self.tag_sites: dict[int, bool] = {}                      # translate tag pos -> literal
         self.static_sites: list[tuple[int, tuple]] = []           # (pos, message) the harness expects extracted
         self.comments: list[tuple[int, str]] = []                 # (pos, stripped translator comment)
@@ -196,6 +198,8 @@ class Printer:
         lit = operands_literal(name, args)
         if lit:
             self.lit_filter_sites[(pos, left[1])] = True
+        else:
+            self.nonlit_filter_sites[(pos, left[1])] = True
         if m is not None:
             self.static_sites.append((pos, m))
 
@@ -432,7 +436,7 @@ class Printer:
         ctx = ctxs[-1] if ctxs else None
         lit = ctx is None or ctx[0] == "str"
         self.tag_sites[pos] = lit
-        if sing:
+        if sing or plural is not None:
             stext = norm_message(sing)
             c = ctx[1] if (ctx is not None and ctx[0] == "str" and ctx[1]) else None
             if plural is not None:
@@ -803,7 +807,8 @@ class Gen:
             out.append(("text", r.choice(["\n", "  \n", "\n\n", " "])))
         for n in ns:
             if out and out[-1][0] != "text" and n[0] != "text" and r.random() < 0.7:
-                out.append(("text", r.choice(["\n", "\n", "\n\n", " ", "\r\n", "x\n"])))
+                out.append(("text", r.choice(["\n", "\n", "\n", "\n\n", " ", "\r\n", "x\n", "\r", "\x0c", "\u2028",
+                                              "\x0c\x0c", "\x0b", "\r\r", "\x85\x1c"])))
             if n[0] == "text" and out and out[-1][0] == "text":
                 continue
             out.append(n)
@@ -864,12 +869,16 @@ def _fa(ns: list[tuple]) -> list[tuple]:
     return fix_adjacency(ns, True)
 
 
+LINE_BOUNDARY = re.compile("\r\n|[\n\r\x0b\x0c\x1c\x1d\x1e\x85\u2028\u2029]")
+
+
 def line_starts(src: str) -> list[int]:
-    offs, o = [], 0
-    for ln in src.splitlines(keepends=True):
-        offs.append(o)
-        o += len(ln)
-    return offs
+    """Offsets at which a line starts, counted independently of the code under
+    test, in the engine's line convention: a line ends at exactly the
+    str.splitlines boundaries (\\n, \\r\\n, \\r, \\v, \\f, \\x1c-\\x1e, \\x85,
+    U+2028, U+2029) - the convention of messages.line_number,
+    line_number_factory and exceptions._error_context alike."""
+    return [0] + [m.end() for m in LINE_BOUNDARY.finditer(src)]
 
 
 def true_line(starts: list[int], pos: int) -> int:
@@ -1045,17 +1054,34 @@ def oracle(case: Case) -> list[tuple[str, str]]:
     for lineno, funcname, message, comments in case.tuples:
         ext.append((lineno, msg_tuple(funcname, message), list(comments)))
     ext_set = {(ln, m) for ln, m, _ in ext}
-    # 1. every lookup made for a literal site is extracted, same family / ids / context, right line
+    # 1. every lookup made for a translate tag, or for a translation filter whose
+    # operand is a string literal, is extracted: same family / ids / context, right line
     for rd in case.renders:
         for call in rd["calls"]:
             fam, c, i, p, n, origin = call
-            if not case.lit_of(call) or i == "":
+            if origin in case.pr.tag_sites:
+                site_lit, is_tag = case.pr.tag_sites[origin], True
+            elif (origin, i) in case.pr.lit_filter_sites:
+                site_lit, is_tag = True, False
+            elif (origin, i) in case.pr.nonlit_filter_sites:
+                site_lit, is_tag = False, False
+            else:
                 continue
+            if i == "" and p is None:
+                continue          # gettext("") / pgettext(c, ""): the catalog header, not a message
             want = (true_line(starts, origin), (fam, c, i, p))
             if want not in ext_set:
                 same_ids = [(ln, m) for ln, m in ext_set if m and m[2] == i]
+                here = [m for ln, m in same_ids if ln == want[0]]
                 if any(m == want[1] for _, m in same_ids):
                     sig, what = "lookup-extracted-with-wrong-line", "is extracted with another line number"
+                elif not site_lit and is_tag and any(m[3] == p for m in here):
+                    sig, what = ("translate-nonliteral-context",
+                                 "is extracted without / with another context: the tag's context is not a string literal")
+                elif not site_lit and not is_tag:
+                    sig, what = ("filter-nonliteral-operand",
+                                 "is extracted with another family / operands or not at all: the filter's context or "
+                                 "plural operand is not a string literal")
                 elif same_ids:
                     sig, what = "lookup-extracted-with-other-family-or-operands", "is extracted with another family / context / plural"
                 else:
@@ -1284,7 +1310,53 @@ CORPUS: list[list[tuple]] = [
     [("translate", [], [], None)],
     [("translate", [], [], [("text", "b")])],
     [("translate", [], [("text", "  ")], None)],
+    [("translate", [("context", ("str", "c"))], [], [("text", "es1")])],
+    [("translate", [], [("text", " \n ")], [("text", "es2")])],
+    # known findings: a context / plural operand that is not a string literal
+    [("translate", [("context", ("int", 5))], [("text", "nl1")], None)],
+    [("translate", [("context", ("bool", True))], [("text", "nl2")], [("text", "nl2s")])],
+    [("expr", "output", ("filtered", ("str", "nl3"), [("t", [("kw", "plural", ("nil",))])]))],
+    [("expr", "output", ("filtered", ("str", "nl4"), [("t", [("kw", "plural", ("int", 7)), ("kw", "count", ("int", 2))])]))],
+    [("expr", "output", ("filtered", ("str", "nl5"), [("t", [("pos", ("int", 5))])]))],
+    [("expr", "output", ("filtered", ("str", "nl6"), [("pgettext", [("pos", ("bool", True))])]))],
+    [("expr", "output", ("filtered", ("str", "nl7"), [("ngettext", [("pos", ("int", 3)), ("pos", ("int", 2))])]))],
+    # the same keyword twice (the last one wins on both sides); boolean counts
+    [("expr", "output", ("filtered", ("str", "dk1"), [("t", [("kw", "plural", ("str", "dk1a")), ("kw", "plural", ("str", "dk1b")), ("kw", "count", ("int", 2))])]))],
+    [("expr", "output", ("filtered", ("str", "dk2"), [("t", [("kw", "plural", ("var", 0)), ("kw", "plural", ("str", "dk2b")), ("kw", "count", ("int", 2)), ("kw", "count", ("int", 0))])]))],
+    [("translate", [("count", ("int", 1)), ("count", ("int", 2))], [("text", "dk3")], [("text", "dk3s")])],
+    [("translate", [("context", ("str", "a")), ("context", ("str", "b"))], [("text", "dk4")], None)],
+    [("translate", [("context", ("var", 0)), ("context", ("str", "b"))], [("text", "dk5")], None)],
+    [("expr", "output", ("filtered", ("str", "bc1"), [("t", [("kw", "plural", ("str", "bc1s")), ("kw", "count", ("bool", True))])]))],
+    [("expr", "output", ("filtered", ("str", "bc2"), [("t", [("kw", "plural", ("str", "bc2s")), ("kw", "count", ("bool", False))])]))],
+    [("translate", [("count", ("bool", True))], [("text", "bc3")], [("text", "bc3s")])],
+    [("translate", [("count", ("bool", False))], [("text", "bc4")], [("text", "bc4s")])],
+    [("expr", "output", ("filtered", ("str", "bc5"), [("ngettext", [("pos", ("str", "bc5s")), ("pos", ("bool", True))])]))],
+    [("expr", "output", ("filtered", ("str", "bc6"), [("npgettext", [("pos", ("str", "c")), ("pos", ("str", "bc6s")), ("pos", ("bool", False))])]))],
 ]
+
+
+def _sep_corpus() -> list[list[tuple]]:
+    """Every str.splitlines boundary other than \\n (form feed, vertical tab,
+    separators, NEL, U+2028/9, \\r, \\r\\n) between comments and messages: in the
+    engine's convention each of them ends a line, for tags (line_number) and
+    for expressions (line_number_factory) alike."""
+    def t_out(i: str) -> tuple:
+        return ("expr", "output", ("filtered", ("str", i), [("t", [])]))
+
+    out: list[list[tuple]] = []
+    k = 0
+    for sep in ["\x0c", "\x0c\x0c", "\x0b", "\u2028", "\u2028\u2029", "\x1c\x1d\x1e", "\x85", "\r", "\r\r", "\r\n",
+                "\r\n\r\n", "\n\x0c", "\x0c\n\x0c", "\n\r"]:
+        k += 1
+        i = f"sp{k}"
+        out.append([("comment", "hash", f" Translators: {i} "), ("text", sep), t_out(i)])
+        out.append([("comment", "inline", f" Translators: {i} "), ("text", sep), ("translate", [], [("text", i)], None)])
+        out.append([t_out(i + "a"), ("text", sep), ("translate", [], [("text", i + "b")], [("text", i + "c")]),
+                    ("text", sep), ("comment", "block", f"Translators: {i}"), ("text", sep),
+                    ("expr", "echo", ("filtered", ("str", i + "d"), [("gettext", [])]))])
+        out.append([("text", "x" + sep + "y" + sep), ("liquid", [("comment", "line", f" Translators: {i}"),
+                                                                 ("expr", "echo", ("filtered", ("str", i), [("t", [])]))])])
+    return out
 
 
 def adjacency_corpus() -> list[list[tuple]]:
@@ -1360,7 +1432,7 @@ def main(chk: C.Check, build: C.Build) -> None:
 
     n_prog = 700 if not thorough else 6000
     gen = Gen(rnd, thorough)
-    progs: list[list[tuple]] = [list(p) for p in CORPUS] + adjacency_corpus()
+    progs: list[list[tuple]] = [list(p) for p in CORPUS] + _sep_corpus() + adjacency_corpus()
     for _ in range(n_prog):
         progs.append(gen.program())
 
@@ -1408,11 +1480,12 @@ def main(chk: C.Check, build: C.Build) -> None:
 
     # the whitespace table of the model against CPython
     ws = [c for c in range(0x110000) if chr(c).isspace()]
-    lb = sorted({ord(ch) for ch in "".join(chr(c) for c in range(0x3100))
-                 if len(("a" + ch + "b").splitlines()) == 2})
+    # str.splitlines boundaries of the running CPython, over every code point
+    lb = [c for c in range(0x110000) if c != 0x0D and len(("a" + chr(c) + "b").splitlines()) == 2] 
+    lb = sorted(set(lb) | ({0x0D} if len("a\rb".splitlines()) == 2 else set()))
+    cand = sorted(set(ws) | set(lb) | {0, 8, 14, 27, 31, 65, 127, 132, 134, 0x2027, 0x202A, 0xFFFF, 0x10FFFF})
     items = [{"case": f"list_eqb N.eqb ws_chars {C.clist(map(str, ws))} && "
-                      f"forallb is_linebreak {C.clist(map(str, lb))} && "
-                      f"negb (existsb is_linebreak {C.clist(str(c) for c in (9, 32, 31, 160, 0x2003, 0x3000, 65))}) && "
+                      f"list_eqb N.eqb (filter is_linebreak {C.clist(map(str, cand))}) {C.clist(map(str, lb))} && "
                       f"str_eqb (dec ({-120})%Z) {C.cstr('-120')} && str_eqb (dec 0%Z) {C.cstr('0')} && str_eqb (dec 907%Z) {C.cstr('907')}",
               "model": "(ws_chars, dec 0%Z)", "replay": {"what": "str.isspace / str.splitlines / str(int) tables"}}]
     # line_number / line_number_factory directly: every offset (and two beyond the
@@ -1482,5 +1555,6 @@ def main(chk: C.Check, build: C.Build) -> None:
         "the catalog returns text without %-conversion specifiers (the interpolation after a lookup cannot raise)",
         "keyword-argument names of filters are plural/count/k<n>: names colliding with Python parameters (e.g. `context`) are outside the syntax",
         "positions_in_source: every token offset is inside the source (checked on every parsed template: extraction never raised)",
-        "lookups with the empty message id (translate tag with an empty block) are not covered: '' is the catalog header, not a message",
+        "gettext('') / pgettext(c, '') (translate tag with neither message text nor plural block) are not covered: '' is the catalog header, not a message",
+        "known findings translate-nonliteral-context / filter-nonliteral-operand: lookups whose context or plural operand is not a string literal are outside the _partial theorem (guard tc_lit); the oracle reports them under those signatures",
     ]
